@@ -28,7 +28,7 @@ ASSUMPTIONS = ['tm_exact, helmert_exact and the closed-form Cartesian oracle (ea
                'its natural zone)', 'a 3x1 variance column stands for the diagonal matrix of those variances']
 N = {'quick': 500, 'thorough': 8000}
 SHARDS = {'quick': 16, 'thorough': 32}
-REQUIRED_COUNTERS = ['forward_judged', 'reverse_judged', 'roundtrip_judged', 'no_height_judged', 'vcv3x3_judged', 'vcv3x1_judged',
+REQUIRED_COUNTERS = ['same_point_sequences', 'forward_judged', 'reverse_judged', 'roundtrip_judged', 'no_height_judged', 'vcv3x3_judged', 'vcv3x1_judged',
                      'zone_change_cases']
 A, INVF = 6378137.0, 298.257222101
 K0, FE, FN = 0.9996, 500000.0, 10000000.0
@@ -309,6 +309,20 @@ def run_shard(spec, ctx):
         tr.seq = []
         judge(ns, ctx, case)
         tr.flush()
+        if rnd.random() < 0.35:
+            # the same grid coordinate again with another height presence (absent / 0 / 0.0 / value), other direction or
+            # other covariance: a memo keyed on too little (False == 0 == 0.0) answers with the earlier call's result
+            c2 = dict(case)
+            r = rnd.random()
+            if r < 0.6:
+                c2['h'] = rnd.choice([v for v in (None, 0, 0.0, 12.5) if not (v == case['h'] and type(v) is type(case['h']))])
+            elif r < 0.8:
+                c2['direction'] = '2020->94' if case['direction'] == '94->2020' else '94->2020'
+            else:
+                c2['vcv'], c2['vkind'] = (None, 'none') if case['vcv'] is not None else (c06.rand_vcv(rnd, 'spd').tolist(), 'spd')
+            judge(ns, ctx, c2)
+            judge(ns, ctx, case)
+            ctx.count('same_point_sequences')
     ctx.info['internal_call_orders_observed'] = dict(sorted(tr.orders.items(), key=lambda kv: -kv[1])[:6])
 
 
